@@ -368,18 +368,21 @@ func (s *Sim) teardown() {
 	}
 	sort.Strings(s.BlockedAt)
 	s.mu.Unlock()
-	for i := 0; i < 100000; i++ {
+	// Release the parked goroutines one at a time, in canonical order, so that what
+	// they do on the way out (close connections, log task completion) happens in the
+	// same order whatever the number of processors.
+	for i := 0; i < 1000000; i++ {
 		synctest.Wait()
 		s.mu.Lock()
-		ws := s.waiters
-		s.waiters = nil
-		s.mu.Unlock()
-		if len(ws) == 0 {
+		if len(s.waiters) == 0 {
+			s.mu.Unlock()
 			return
 		}
-		for _, w := range ws {
-			close(w.grant)
-		}
+		sort.SliceStable(s.waiters, func(a, b int) bool { return s.waiters[a].key < s.waiters[b].key })
+		w := s.waiters[0]
+		s.waiters = s.waiters[1:]
+		s.mu.Unlock()
+		close(w.grant)
 	}
 }
 
